@@ -112,6 +112,11 @@ def check_c20(seed, tier):
         path, clean = products.place(prod, "memory")
         try:
             ref = treecmp.fingerprint_tree(_open(path))
+        except Exception as e:  # noqa: BLE001
+            evals += 1
+            viol.append({"case": {"cfg": cfg, "padding": "as synthesised (random content of the declared class)"},
+                         "what": f"open raised on a well-formed product: {type(e).__name__}: {e}"[:300], "key": common.failure_site(e)})
+            continue
         finally:
             clean()
         files2, n = rewrite_padding(rng, prod)
@@ -238,25 +243,25 @@ def check_c13(seed, tier):
         elif mode == "sections-reversed":
             lines = lines[::-1]
         prod.files["summary.txt"] = ("\n".join(lines) + "\n").encode()
-        path, clean = products.place(prod, rng.choice(["memory", "local"]))
+        fsk = rng.choice(["memory", "local", "local"])
+        path, clean = products.place(prod, fsk)
         evals += 1
         distinct.add((tuple(images), mode, cfg["mapproj"]))
-        case = {"cfg": cfg, "summary_order": mode}
-        try:
-            t = _open(path)
+        want_names = [im.pol + (f"_scan{im.scan[1]}" if im.scan else "") for im in prod.images]
+
+        def verify(t, case):
             top = list(t.children)
             if sorted(top) != ["imagery", "metadata", "summary"]:
                 viol.append({"case": case, "what": f"root children {top}"})
-            want_names = [im.pol + (f"_scan{im.scan[1]}" if im.scan else "") for im in prod.images]
-            got_names = list(t["imagery"].children)
+            got_names = list(t["imagery"].children) if "imagery" in t.children else []
             if got_names != want_names:
                 viol.append({"case": case, "what": f"/imagery children {got_names} != {want_names} (summary order)"})
             for im, name in zip(prod.images, want_names):
-                if name in t["imagery"].children:
+                if name in got_names:
                     if not products.same_bits(t[f"imagery/{name}/data"].values, products.twin(im)):
                         viol.append({"case": case, "what": f"/imagery/{name} does not hold the pixels of {im.name}"})
             want_meta = [g for g in LEADER_GROUPS] + (["map_projection"] if cfg["mapproj"] else [])
-            if sorted(t["metadata"].children) != sorted(want_meta):
+            if "metadata" in t.children and sorted(t["metadata"].children) != sorted(want_meta):
                 viol.append({"case": case, "what": f"/metadata children {sorted(t['metadata'].children)} != {sorted(want_meta)}"})
             diffs = expect.compare_tree(t, expect.expected_nodes(prod, ("root", "images")))
             if diffs:
@@ -264,8 +269,24 @@ def check_c13(seed, tier):
             for node in t.subtree:
                 if "coordinates" in node.attrs:
                     viol.append({"case": case, "what": f"{node.path}: bookkeeping attribute 'coordinates' left in the tree"})
+            return got_names
+
+        case = {"cfg": cfg, "summary_order": mode, "fs": fsk}
+        try:
+            got_names = verify(_open(path), {**case, "open": "uncached"})
             if len(samples) < 2:
                 samples.append({"images": images, "summary_order": mode, "children": got_names})
+            if fsk == "local":
+                # the same product through the index cache: written by this open, used by the next ones
+                import oracle_cache
+                oracle_cache.wipe_user_cache()
+                try:
+                    evals += 2
+                    verify(_open(path, use_cache=rng.random() < 0.5, create_cache=True), {**case, "open": "create_cache=True"})
+                    verify(_open(path, use_cache=True), {**case, "open": "use_cache=True after create_cache=True"})
+                    distinct.add((tuple(images), mode, "cached"))
+                finally:
+                    oracle_cache.wipe_user_cache()
         except Exception as e:  # noqa: BLE001
             viol.append({"case": case, "what": f"{type(e).__name__}: {e}"[:300], "key": common.failure_site(e)})
         finally:
@@ -406,6 +427,39 @@ def check_c15(seed, tier):
         except ValueError:
             if valid:
                 viol.append({"case": {"string": s}, "what": "valid scene id rejected"})
+    # look-alike characters outside ASCII (other Unicode decimal digits, full-width / Cyrillic letters) are outside the language
+    lookalikes = {**{str(d): ["\uff10\uff11\uff12\uff13\uff14\uff15\uff16\uff17\uff18\uff19"[d], "\u0660\u0661\u0662\u0663\u0664\u0665\u0666\u0667\u0668\u0669"[d],
+                               "\u0966\u0967\u0968\u0969\u096a\u096b\u096c\u096d\u096e\u096f"[d]] for d in range(10)},
+                  "A": ["\u0410", "\uff21"], "B": ["\u0412", "\uff22"], "F": ["\uff26"], "H": ["\u041d", "\uff28"], "V": ["\uff36"],
+                  "L": ["\uff2c"], "R": ["\uff32"], "D": ["\uff24"], "U": ["\uff35"], "S": ["\u0405", "\uff33"], "-": ["\u2010", "\u2212"], ".": ["\uff0e"]}
+    fns = {"scene_id": decoders.decode_scene_id, "product_id": decoders.decode_product_id, "scan_info": decoders.decode_scan_info,
+           "filename": decoders.decode_filename, "groupname": filename_to_groupname}
+    for _ in range(150 if tier == "quick" else 3000):
+        pid = rng.choice(ids)
+        scene_ok = f"ALOS2{rng.randint(0, 99999):05d}{rng.randint(0, 9999):04d}-{rng.randint(14, 49):02d}{rng.randint(1, 12):02d}{rng.randint(1, 28):02d}"
+        scan_ok = rng.choice("BF") + str(rng.randint(0, 9))
+        kind = rng.choice(list(fns))
+        base = {"scene_id": scene_ok, "product_id": pid, "scan_info": scan_ok,
+                "filename": f"IMG-{rng.choice(['HH', 'HV', 'VH', 'VV'])}-{scene_ok}-{pid}" + rng.choice(["", "-" + scan_ok]),
+                "groupname": f"IMG-{rng.choice(['HH', 'HV'])}-{scene_ok}-{pid}-{scan_ok}"}[kind]
+        spots = [i for i, ch in enumerate(base) if ch in lookalikes]
+        i = rng.choice(spots)
+        s_ = base[:i] + rng.choice(lookalikes[base[i]]) + base[i + 1:]
+        evals += 1
+        distinct.add(("lookalike", kind, s_))
+        try:
+            fns[kind](base)
+        except Exception as e:  # noqa: BLE001
+            viol.append({"case": {"decoder": kind, "string": base}, "what": f"valid {kind} rejected: {type(e).__name__}: {e}"[:200]})
+            continue
+        try:
+            r = fns[kind](s_)
+            viol.append({"case": {"decoder": kind, "string": s_, "codepoint": hex(ord(s_[i])), "position": i},
+                         "what": f"{kind} with a non-ASCII look-alike character (outside the documented language) decoded to {r!r}"[:300]})
+        except ValueError:
+            pass
+        except Exception as e:  # noqa: BLE001
+            viol.append({"case": {"decoder": kind, "string": s_}, "what": f"raised {type(e).__name__} instead of ValueError"})
     # unique group name per (polarisation, scan)
     names = {}
     for pol in ["HH", "HV", "VH", "VV"]:
@@ -428,7 +482,6 @@ def check_c14(seed, tier):
         cfg = {"seed": rng.randrange(10**9), "level": rng.choice(["1.1", "1.5"]), "images": rng.sample([("HH", None), ("HV", None), ("VV", None)], rng.randint(1, 3)),
                "n_lines": 1, "n_pixels": 1, "n_att": 1, "n_chan": 1, "mapproj": None}
         prod = products.build(cfg)
-        lines = prod.summary_text.split("\n")[:-1] + [f'Odi_Note{rng.randint(0, 9)}="a = \\"b\\" c"'.replace("\\", "")]
         path, clean = products.place(prod, "memory")
         try:
             ref = treecmp.fingerprint_tree(_open(path))
@@ -461,6 +514,29 @@ def check_c14(seed, tier):
                     viol.append({"case": {"cfg": cfg, "variant": variant}, "what": "tree outside /summary depends on summary line order: " + d})
             except Exception as e:  # noqa: BLE001
                 viol.append({"case": {"cfg": cfg, "variant": variant}, "what": f"{type(e).__name__}: {e}"[:300], "key": common.failure_site(e)})
+            finally:
+                clean()
+        # values may contain spaces, '=' and quotes (in any combination, e.g. `a="b"`): the entry is stored under its key, verbatim
+        extra = {}
+        for j in range(5):
+            alphabet = ['a', 'B', '7', ' ', '=', '"', '="', '"=', ' = ', '""', '_', '.']
+            val = "".join(rng.choice(alphabet) for _ in range(rng.randint(0, 8))) if j else 'k="v" and x = "y"'
+            extra[f"Note{j}x{rng.randint(0, 99)}"] = val
+        for eol in ("\n", "\r\n"):
+            ls = list(prod.summary_text.split("\n")[:-1])
+            for k_, v_ in extra.items():
+                ls.insert(rng.randint(0, len(ls)), f'Odi_{k_}="{v_}"')
+            prod.files["summary.txt"] = (eol.join(ls) + eol).encode()
+            path, clean = products.place(prod, "memory")
+            evals += 1
+            distinct.add((cfg["seed"], "values", eol))
+            try:
+                got = _open(path)["summary/ordering_information"].attrs
+                wrong = {k_: (v_, got.get(k_)) for k_, v_ in extra.items() if got.get(k_) != v_}
+                if wrong:
+                    viol.append({"case": {"cfg": cfg, "extra_lines": extra, "eol": eol}, "what": f"summary values not stored verbatim under their key (expected, got): {wrong}"[:400]})
+            except BaseException as e:  # noqa: BLE001
+                viol.append({"case": {"cfg": cfg, "extra_lines": extra, "eol": eol}, "what": f"well-formed summary rejected: {type(e).__name__}: {e}"[:300], "key": common.failure_site(e) if isinstance(e, Exception) else None})
             finally:
                 clean()
         # corrupted lines: one error group naming every offending line and no others
